@@ -10,7 +10,7 @@ Section SimPrim.
   Lemma Sim_rune s sc g m H R inv : Sim c s sc g m H R inv ->
     rune_at c (g_off g) = (sp_rn (pt s), sp_w (pt s)).
   Proof.
-    intros S. pose proof (reach_ok _ _ (S_reach _ _ _ _ _ _ _ _ S)) as [A B].
+    intros S. pose proof (reach_ok _ _ (S_reach _ _ _ _ _ _ _ _ S)) as (A & B & Lb).
     unfold rune_at; cbn [rd rData rU rO rG rE]. cbn [rd rData]. rewrite <- (S_off _ _ _ _ _ _ _ _ S). unfold cur_off. rewrite <- A. symmetry. exact B.
   Qed.
 
@@ -29,7 +29,7 @@ Section SimPrim.
   Proof.
     intros S Hw. pose proof S as [S1 S2 S3 S4 S5 S6 S7 S8 S9 S10 S11 S12].
     pose proof (reach_adv _ _ S1 Hw) as Hr.
-    pose proof (reach_ok _ _ Hr) as [A B].
+    pose proof (reach_ok _ _ Hr) as (A & B & Lb).
     assert (Hoff : offset (sp_pos (adv (pt s))) = g_off g + sp_w (pt s)).
     { rewrite adv_off. unfold cur_off in S2. rewrite S2. reflexivity. }
     assert (Hrune : rune_at c (g_off g + sp_w (pt s)) = (sp_rn (adv (pt s)), sp_w (adv (pt s)))).
@@ -141,13 +141,13 @@ Section SimTerm.
   Proof.
     intros Ht S. unfold parseCharClassMatcher, step_rune, cls_fail, cls_match; cbn [rd rData rU rO rG rE].
     rewrite (Sim_eof _ _ _ _ _ _ _ _ S), (Sim_rune _ _ _ _ _ _ _ _ S).
-    pose proof (reach_ok _ _ (S_reach _ _ _ _ _ _ _ _ S)) as [A B].
+    pose proof (reach_ok _ _ (S_reach _ _ _ _ _ _ _ _ S)) as (A & B & Lb).
     assert (Hnn : (0 <= sp_rn (pt s))%Z).
     { pose proof (decode_nonneg (sp_rest (pt s))) as Hd. rewrite <- B in Hd. exact Hd. }
     destruct (t_basiclatin (cT c) && (sp_rn (pt s) <? 128)%Z) eqn:Hbl.
     - apply andb_true_iff in Hbl as [Hbl Hlt]. apply Z.ltb_lt in Hlt.
       assert (Hw : sp_w (pt s) <> 0).
-      { intros E. apply (sp_ok_eof _ _ (conj A B)) in E. apply andb_true_iff in E as [E _].
+      { intros E. apply (sp_ok_eof _ _ (conj A (conj B Lb))) in E. apply andb_true_iff in E as [E _].
         apply Z.eqb_eq in E. unfold RuneError in E. lia. }
       destruct (Nat.eqb_spec (sp_w (pt s)) 0) as [E|E]; [contradiction|].
       destruct Ht as [Ht|Ht]; [congruence|].
